@@ -625,13 +625,13 @@ theorem cycle2_child_no_rerun (cfg : Cfg) (sub : SubReg) (P : Store) (now : Tick
       exact (execOnce_invoked hp).1 : i ∈ (subCfgOf cfg sub p).selected)
     exact sub_no_rerun (subCfgOf cfg sub p) P now now execLeaf i n r hsel hP hfin hp
 
-/-- OPEN FINDING C02-F1, as a theorem about the composed model (three passes, each starting from what the
-    previous one left): resume handlers `r0` (children `r0/a`, `r0/b`) and `r1`; in the first pass `r0/a`
-    succeeds, `r0/b` and `r1` are to be retried; then the cause turns to *update* with `r1` deselected: `r0`
-    is re-purposed and keeps its retry series (1, then 2), the superseded progress is purged — and in the
-    third pass the finished child `r0/a` is invoked again from scratch. The full clause "a sub-handler whose
-    success is recorded is never invoked again … across intervening events" is false of the code. -/
-theorem sub_rerun_after_supersede_witness :
+/-- Regression of the repaired finding C02-F1 (/repo: only the handlers that fell out of the current purpose
+    are purged), three passes of the composed model, each starting from what the previous one left: resume
+    handlers `r0` (children `r0/a`, `r0/b`) and `r1`; in the first pass `r0/a` succeeds, `r0/b` and `r1` are to
+    be retried; then the cause turns to *update* with `r1` deselected: `r0` is re-purposed and keeps its retry
+    series (1, then 2), `r1`'s record is purged as superseded — and the finished child `r0/a` keeps its record
+    and is NOT invoked again (before the repair the third pass invoked `("r0/a", 0)`). -/
+theorem sub_not_rerun_after_supersede_regression :
     let ok : Outcome := { final := true, delay := none, error := false, subrefs := [] }
     let again : Outcome := { final := false, delay := some 0, error := true, subrefs := [] }
     let sub : SubReg := { children := fun p => if p = "r0" then ["r0/a", "r0/b"] else [],
@@ -645,7 +645,51 @@ theorem sub_rerun_after_supersede_witness :
     let c3 := cycle2 cfg2 sub c2.P' 0 ex
     c1.subInvoked = [("r0/a", 0), ("r0/b", 0)] ∧ ((c1.P' "r0/a").map (·.success)) = some true ∧
     c2.invoked = [("r0", 1)] ∧ c2.subInvoked = [("r0/b", 1)] ∧ c2.closed = false ∧
-    c3.invoked = [("r0", 2)] ∧ ("r0/a", 0) ∈ c3.subInvoked := by
-  refine ⟨by decide, by decide, by decide, by decide, by decide, by decide, by decide⟩
+    (c2.P' "r1") = none ∧ ((c2.P' "r0/a").map (·.success)) = some true ∧
+    c3.invoked = [("r0", 2)] ∧ c3.subInvoked = [("r0/b", 2)] := by
+  refine ⟨by decide, by decide, by decide, by decide, by decide, by decide, by decide, by decide, by decide⟩
+
+/-- Along any continuation in which the composed passes are chained (each from what the previous one left) the
+    record of a finished child survives as long as its parent is not among the handlers that fell out of the
+    current purpose — one pass: a record the pass does not purge and no sub-pass rewrites stays as it is. -/
+theorem cycle2_keeps_untouched (cfg : Cfg) (sub : SubReg) (P : Store) (now : Tick) (execLeaf : Id → Nat → Outcome)
+    (i : Id) (hk : i ∉ known cfg) (hnc : ∀ p, i ∉ sub.children p)
+    (hnf : i ∉ allSubrefs (preState cfg P now) (fallen (preState cfg P now) (known cfg) cfg.reason))
+    (hopen : (cycle2 cfg sub P now execLeaf).closed = false) :
+    (cycle2 cfg sub P now execLeaf).P' i = P i := by
+  rw [cycle2_eq] at hopen ⊢
+  simp only at hopen ⊢
+  simp only [hopen, Bool.false_eq_true, if_false]
+  have hst : ∀ (st' : St), (∀ j, j ∉ known cfg → st' j = none) → ∀ (B : Store), store B st' i = B i := by
+    intro st' h B; unfold store; simp [h i hk]
+  have hpre : ∀ j, j ∉ known cfg → preState cfg P now j = none := by
+    intro j hj
+    have ho : j ∉ cfg.owned := fun h => hj (by simp [known, h])
+    have hs : j ∉ cfg.selected := fun h => hj (by simp [known, h])
+    unfold preState
+    by_cases hx : hasExtras (withHandlers (fromStorage P cfg.owned) cfg.selected cfg.reason now) (known cfg) cfg.reason = true
+    · simp [hx, repurpose, withHandlers, fromStorage, ho, hs]
+    · simp [hx, withHandlers, fromStorage, ho, hs]
+  have hpost : ∀ j, j ∉ known cfg →
+      (execOnce cfg (preState cfg P now) now now (execTop cfg sub P now execLeaf)).st j = none := by
+    intro j hj
+    cases h : (execOnce cfg (preState cfg P now) now now (execTop cfg sub P now execLeaf)).st j with
+    | none => rfl
+    | some hs' =>
+      obtain ⟨h0, hp0, _, _⟩ := execOnce_st_some h
+      rw [hpre j hj] at hp0
+      cases hp0
+  rw [hst _ hpost]
+  rw [subWrites_other cfg sub P now execLeaf i _ _ (fun p _ => hnc p)]
+  unfold midStore
+  by_cases hx : extrasLeft cfg P now = true
+  · simp only [hx, if_true]
+    unfold purgeFallen
+    have hnf1 : i ∉ fallen (preState cfg P now) (known cfg) cfg.reason := by
+      intro h
+      unfold fallen at h
+      exact hk (List.mem_filter.1 h).1
+    simp [hnf1, hnf]
+  · simp [hx]
 
 end Kopf.C02
